@@ -607,8 +607,8 @@ def transition_formulas(ctx, rid):
             if len(sub[2]) >= 2 and sub[2][1][0] == "bin" and sub[2][1][1] in ("Add", "Sub") and any(a[0] == "const" for a in sub[2][1][2:]):
                 if sub[2][1][1] != want:
                     bad.append("the %s is taken at position %s 1" % (who, "+" if sub[2][1][1] == "Add" else "-"))
-            elif len(sub[2]) >= 2 and sub[2][1][0] != "bin" and "VehicleIdx" not in str(sub[1]) and "Vec" in sub[1] or False:
-                pass
+            elif len(sub[2]) >= 2 and sub[2][1][0] != "bin" and (sub[1].endswith("TransitionCycle::get") or "slice" in sub[1] or "[T]" in sub[1]):
+                bad.append("the %s is taken at the vehicle's own position (no %s 1)" % (who, "-" if want == "Sub" else "+"))
     if bad:
         ctx.bad(o, "; ".join(sorted(set(bad))) + ": the depot transfers of the rotation cycle are computed between the wrong vehicles", loc=tup[0].line())
     elif f0["end_depot"] and f1["start_depot"] and f0["last"] and f1["first"]:
@@ -962,3 +962,111 @@ def depot_replacement_tests(ctx, rid):
             ctx.ok(o2, "%d indexed neighbour operand(s)" % seen)
         else:
             ctx.undecided(o2, "neighbour operands not recognised")
+
+
+def transition_counter_deltas(ctx, rid):
+    """the counter of a rotation cycle after one vehicle changed / left / joined: old counter - (what the vehicle contributed, or the
+    link that is opened) + (what it contributes now, or the link that closes the gap)"""
+    HELP = "maintenance_counter_of_tour_plus_dead_head_trips_before_and_after"
+    spec = {"update_vehicle": "update", "remove_vehicle": "remove", "add_vehicle_at_the_end": "add"}
+    for name, mode in spec.items():
+        key = TR(name)
+        o, fd = ctx.require_fn("%s.%s.cycle-counter-delta" % (rid, name), "T12", key,
+                               "%s: new cycle counter = old counter - (leaving contribution) + (arriving contribution)" % name)
+        if fd is None:
+            continue
+        roots = _roots_with(fd, ("TransitionCycle::maintenance_counter",), types=("i64",))
+        bad, n = [], 0
+        for ins, e in roots:
+            terms = flatten(e)
+            if any(t[0] == "field" for _, t in terms):
+                continue        # the totals of the transition (other rule)
+            base = [s for s, t in terms if t[0] == "call" and t[1].endswith("TransitionCycle::maintenance_counter")]
+            if base != [1]:
+                continue
+            for s, t in terms:
+                if t[0] == "call" and t[1].endswith("TransitionCycle::maintenance_counter"):
+                    continue
+                cs = shape.calls_of(t)
+                is_help = any(c.endswith(HELP) for c in cs)
+                is_link = not is_help and any(c.endswith("dead_head_distance_between") for c in cs)
+                want = None
+                if mode == "update" and is_help:
+                    h = _find_calls(t, HELP)
+                    tour_arg = h[0][2][1] if h and len(h[0][2]) > 1 else ("?",)
+                    want = 1 if tour_arg == ("param", 3) else (-1 if tour_arg[0] == "call" else None)
+                elif mode == "remove":
+                    want = -1 if is_help else (1 if is_link else None)
+                elif mode == "add":
+                    want = 1 if is_help else (-1 if is_link else None)
+                if want is None:
+                    continue
+                n += 1
+                if want != s:
+                    bad.append((ins, "%s%s although it is what %s the cycle" % ("+" if s > 0 else "-", shape.show(t)[:80], "leaves" if want < 0 else "joins")))
+        if bad:
+            ctx.bad(o, bad[0][1] + ": the counter of the cycle (and the maintenance violation) is wrong from here on", loc=bad[0][0].line())
+        elif n:
+            ctx.ok(o, "%d signed contribution(s)" % n)
+        else:
+            ctx.undecided(o, "contributions not recognised")
+    # a one-vehicle cycle closes on itself: end depot -> start depot of the same tour
+    o = ctx.ob("%s.self-loop-direction" % rid, "T12", TRANSITION, "the transfer of a one-vehicle cycle runs from the tour's end depot to its own start depot")
+    bad, n = [], 0
+    for key in sorted(ctx.prog.bodies):
+        if not key.startswith(TRANSITION + "::") or getattr(ctx.prog.bodies[key], "test_unit", False) or "verify_consistency" in key:
+            continue
+        fd = ctx.an.fd(key)
+        for c in fd.body.calls():
+            if not (c.callee or "").endswith("dead_head_distance_between") or len(c.args) < 3:
+                continue
+            e1, e2 = shape.expr(fd, c.args[1]), shape.expr(fd, c.args[2])
+            if e1[0] == "call" and e2[0] == "call" and e1[2] and e2[2] and e1[2][0] == e2[2][0] and e1[2][0][0] != "?":
+                a, b = e1[1].split("::")[-1], e2[1].split("::")[-1]
+                if {a, b} <= {"end_depot", "start_depot"}:
+                    n += 1
+                    if (a, b) != ("end_depot", "start_depot"):
+                        bad.append((c, "%s -> %s" % (a, b)))
+    if bad:
+        ctx.bad(o, "the self-transfer at %s runs %s of the same tour" % (bad[0][0].line(), bad[0][1]), loc=bad[0][0].line())
+    elif n:
+        ctx.ok(o, "%d self-transfer(s)" % n)
+    else:
+        ctx.undecided(o, "no self-transfer recognised")
+    # add_vehicle_at_the_end: the new vehicle goes between the old last vehicle (its END depot) and the first vehicle (its START depot)
+    key = TR("add_vehicle_at_the_end")
+    o, fd = ctx.require_fn("%s.add_vehicle_at_the_end.neighbours" % rid, "T12", key,
+                           "the vehicle appended to a cycle sits between the END depot of the previous last vehicle and the START depot of the first")
+    if fd is not None:
+        probs, seen = [], 0
+        for ins in fd.body.instrs():
+            if ins.kind == "assign" and ins.rv_kind() == "agg" and ins.rv.get("ak") == "closure":
+                ck = ins.rv["closure"]
+                cb = ctx.prog.bodies.get(ck)
+                if cb is None:
+                    continue
+                direct = {(c.callee or "").split("::")[-1] for c in cb.calls()}
+                if not direct & {"end_depot", "start_depot"}:
+                    continue
+                # which element of the cycle the closure is mapped over: first() or get(len - 2)
+                users = [c for c in fd.body.calls() if any(a.place is not None and a.place.local == ins.place.local for a in c.args)]
+                for u in users:
+                    recv = shape.expr(fd, u.args[0]) if u.args else ("?",)
+                    rc = shape.calls_of(recv)
+                    if any(x.endswith("::first") for x in rc):
+                        seen += 1
+                        if "start_depot" not in direct:
+                            probs.append((u, "the first vehicle contributes its %s" % "/".join(sorted(direct & {"end_depot", "start_depot"}))))
+                    elif any(x.endswith("::last") for x in rc):
+                        seen += 1
+                        probs.append((u, "the successor of the appended vehicle is taken with last()"))
+                    elif any(x.endswith("::get") for x in rc):
+                        seen += 1
+                        if "end_depot" not in direct:
+                            probs.append((u, "the previous last vehicle contributes its %s" % "/".join(sorted(direct & {"end_depot", "start_depot"}))))
+        if probs:
+            ctx.bad(o, "%s (at %s)" % (probs[0][1], probs[0][0].line()), loc=probs[0][0].line())
+        elif seen >= 2:
+            ctx.ok(o, "predecessor: end depot of get(len-2); successor: start depot of first()")
+        else:
+            ctx.undecided(o, "neighbour look-ups not recognised")
